@@ -91,6 +91,39 @@ pub fn run(rng: &mut R, out: &mut Out) {
         one(out, &vec![l; n], rng, true);
         one(out, &vec![[0u8; 32]; n], rng, true);
     }
+    // leaves drawn from a tiny alphabet: identical siblings, identical subtrees, repeated pairs at every level
+    {
+        let abc: Vec<[u8; 32]> = (0..4).map(|_| gen::arr32(rng)).collect();
+        let (a, b, c, d) = (abc[0], abc[1], abc[2], abc[3]);
+        for l in [vec![a, a, b, b], vec![a, a, c, c], vec![a, b, a, b, c, d, c, d], vec![a, a, a, a, b, b, b, b], vec![a, b, b, a], vec![a, a, b], vec![a, b, a, b, a, b], vec![a, a, b, b, c, c, d, d, a]] {
+            out.count("leaves.small_alphabet");
+            one(out, &l, rng, true);
+        }
+        for _ in 0..(if out.tier_thorough { 600 } else { 60 }) {
+            let n = rng.gen_range(2..18);
+            let k = rng.gen_range(2..5);
+            let l: Vec<[u8; 32]> = (0..n).map(|_| abc[rng.gen_range(0..k)]).collect();
+            out.count("leaves.small_alphabet");
+            one(out, &l, rng, true);
+        }
+    }
+    // the root is a function of the leaves alone: the same list on a brand-new thread (nothing any earlier call
+    // may have left behind in thread-local state) gives the definitional root
+    {
+        let x = gen::arr32(rng);
+        let mut lists: Vec<Vec<[u8; 32]>> = vec![vec![[0u8; 32]; 2], vec![[0u8; 32]; 3], vec![[0u8; 32]; 4], vec![[0u8; 32], [0u8; 32], x], vec![x, x], vec![x; 5], vec![]];
+        for _ in 0..8 {
+            let n = rng.gen_range(1..12);
+            lists.push((0..n).map(|_| gen::arr32(rng)).collect());
+        }
+        for l in lists {
+            let l2 = l.clone();
+            let fresh = std::thread::spawn(move || std::panic::catch_unwind(|| hex(&fast_merkle_root(&l2).to_parts().0)).map(|h| format!("ok {}", h)).unwrap_or_else(|_| "panic".into())).join().unwrap_or_else(|_| "panic".into());
+            let spec = format!("ok {}", hex(&level_root(&l)));
+            out.count("fresh_thread.cases");
+            out.s("root_on_fresh_thread_is_level_tree", fresh == spec, || format!("first call on a new thread: n={} leaves={} real={} spec={}", l.len(), leaves_hex(&l), fresh, spec));
+        }
+    }
     // sampled larger counts (K kept modest in size; S only for the largest)
     let big: Vec<usize> = if out.tier_thorough {
         vec![2047, 2048, 2049, 4095, 4097, 10000, 65535, 65536, 65537, 100_001]
